@@ -70,6 +70,8 @@ DriveOut drive_reader(const Task &t, const Bytes &archive, const DriveOpts &o) {
 	src->seekerr = t.seekerr;
 	src->skippast = t.skippast;
 	src->endless = t.endless;
+	src->erronce = t.erronce;
+	src->errerrno = t.errerrno;
 	src->task = t_task;
 	g_sim.ledger = o.ledger;
 	g_sim.fail_at = o.fail_alloc;
@@ -217,7 +219,11 @@ DriveOut drive_reader(const Task &t, const Bytes &archive, const DriveOpts &o) {
 						ob.post_mode = n.mode;
 						ob.post_mtime = n.mtime;
 					}
-					for (size_t li = log_before; li < g_sim.fs->log.size(); ++li) if (g_sim.fs->log[li].err) ob.fs_errors++;
+					for (size_t li = log_before; li < g_sim.fs->log.size(); ++li) {
+						// refusals that matter: a mutating call that failed, or an injected fault (a lookup that finds nothing is no refusal)
+						const FsLog &fl = g_sim.fs->log[li];
+						if (fl.err && (fl.mutating || fl.injected)) ob.fs_errors++;
+					}
 				}
 				if (ob.result && state == 1 && !cur.null) {
 					if (cur.is_dir() && !ob.existed_before && t.policy != LHA_READER_DIR_PLAIN) ++pending_dirs;
